@@ -267,6 +267,7 @@ class NPoint(TemperatureProfile):
         temperature.write_array('pressure_points', np.array(self._p_points))
 
         temperature.write_scalar('smoothing_window', self._smooth_window)
+        temperature.write_scalar('limit_slope', self._limit_slope)
 
         return temperature
 
